@@ -14,6 +14,11 @@ from .common import STROP, FSUTILS, call_name, norm_stmt, stmt_calls, facts_text
 from .C01 import _alpha
 
 S_ = ("self",)
+from framelint.canon import canon_function as _canon_function_expanded
+
+def canon_function(fi, model=None, opts=None):   # rules of this file match shapes: look through every local
+    return _canon_function_expanded(fi, model, opts, expand=True)
+
 
 
 def _init_blocks(ctx: Ctx):
